@@ -68,4 +68,26 @@ where
     ) -> io::Result<()> {
         self.0.write_record(header, record).await
     }
+
+    /// Shuts down the variant format writer.
+    ///
+    /// # Examples
+    ///
+    /// ```
+    /// # #[tokio::main]
+    /// # async fn main() -> tokio::io::Result<()> {
+    /// use noodles_util::variant::{self, io::Format};
+    /// use tokio::io;
+    ///
+    /// let mut writer = variant::r#async::io::writer::Builder::default()
+    ///     .set_format(Format::Vcf)
+    ///     .build_from_writer(io::sink());
+    ///
+    /// writer.shutdown().await?;
+    /// # Ok(())
+    /// # }
+    /// ```
+    pub async fn shutdown(&mut self) -> io::Result<()> {
+        self.0.shutdown().await
+    }
 }
